@@ -82,9 +82,9 @@ func firstDiff(a, b []string) string {
 // ------------------------------------------------------------------------------------------ L1
 
 type c16L1State struct {
-	ctx  sdk.Context
-	w    *world.L1
-	nbr  int
+	ctx sdk.Context
+	w   *world.L1
+	nbr int
 }
 
 type c16L1Sys struct {
@@ -154,10 +154,14 @@ func (y *c16L1Sys) ops() []c16L1Op {
 		{"Claim(b1,w1)", func(s *c16L1State) sdk.Msg { return y.tree.claim(0, 1, "bob") }},
 		{"UpdateBatchInfo(b1,celestia)", func(s *c16L1State) sdk.Msg { return ophosttypes.NewMsgUpdateBatchInfo(s.w.Authority, 1, cel) }},
 		{"UpdateBatchInfo(b1,initia)", func(s *c16L1State) sdk.Msg { return ophosttypes.NewMsgUpdateBatchInfo(s.w.Authority, 1, ini) }},
-		{"UpdateMetadata(b1)", func(s *c16L1State) sdk.Msg { return ophosttypes.NewMsgUpdateMetadata(s.w.Authority, 1, []byte(`{"note":"x"}`)) }},
+		{"UpdateMetadata(b1)", func(s *c16L1State) sdk.Msg {
+			return ophosttypes.NewMsgUpdateMetadata(s.w.Authority, 1, []byte(`{"note":"x"}`))
+		}},
 		{"UpdateOracleConfig(b1,on)", func(s *c16L1State) sdk.Msg { return ophosttypes.NewMsgUpdateOracleConfig(s.w.Authority, 1, true) }},
 		{"UpdateProposer(b1,proposer2)", func(s *c16L1State) sdk.Msg { return ophosttypes.NewMsgUpdateProposer(s.w.Authority, 1, a("proposer2")) }},
-		{"UpdateChallenger(b1,challenger2)", func(s *c16L1State) sdk.Msg { return ophosttypes.NewMsgUpdateChallenger(s.w.Authority, 1, a("challenger2")) }},
+		{"UpdateChallenger(b1,challenger2)", func(s *c16L1State) sdk.Msg {
+			return ophosttypes.NewMsgUpdateChallenger(s.w.Authority, 1, a("challenger2"))
+		}},
 		{"UpdateParams(fee=1uxx)", func(s *c16L1State) sdk.Msg { return ophosttypes.NewMsgUpdateParams(s.w.Authority, &fee) }},
 	}
 }
